@@ -160,7 +160,7 @@ theorem applyFxClips_force (B : Mode → Color → Color → Color) (V : Rect) (
     rw [applyFxNode_force B V x y true st n h.1, applyFxClips_force B V x y _ rest h.2]
 end
 
-/-! ### zero opacity kills the overlays (not the stroke effects) -/
+/-! ### zero opacity kills the overlays and the stroke effects -/
 
 /-- a run of sources that all have zero alpha leaves alpha and colour alone -/
 theorem applySrcs_zero_alpha (B : Mode → Color → Color → Color) {st : PState} (hst : Inv st) (ss : List PSrc)
@@ -183,11 +183,12 @@ theorem applySrcs_zero_alpha (B : Mode → Color → Color → Color) {st : PSta
     intro ha ch
     rw [e3 (by rw [s2]; exact ha) ch, s3 ha ch]
 
-/-- **Zero opacity with overlay effects**: every source of the layer — its own and one per overlay — has alpha 0,
-because the overlays are painted with the layer's `alpha`, which carries the layer opacity. -/
+/-- **Zero opacity with effects**: every source of the layer — its own, one per overlay, one per stroke effect — has
+alpha 0: the overlays are painted with the layer's `alpha`, which carries the layer opacity, and the stroke effect's
+opacity is multiplied by the layer opacity. -/
 theorem finishFx_zero_opacity (B : Mode → Color → Color → Color) (force : Bool) (V : Rect) (x y : Int) {st : PState}
     (hst : Inv st) {pr : Props} {fx : Fx} (hp : PropsOk pr) (hf : FxOk fx) (hko : pr.knockout = false) (hop : pr.opacity = 0)
-    (hns : fx.strokeFx = []) {color : Color} {shape alpha : Rat} (hc : ColorOk color) (ha0 : 0 ≤ alpha) (has : alpha ≤ shape)
+    {color : Color} {shape alpha : Rat} (hc : ColorOk color) (ha0 : 0 ≤ alpha) (has : alpha ≤ shape)
     (hs1 : shape ≤ 1) :
     let r := finishFx B force V x y st pr fx color shape alpha
     r.ag = st.ag ∧ r.a = st.a ∧ (st.a ≠ 0 → ∀ ch, r.c ch = st.c ch) := by
@@ -204,10 +205,11 @@ theorem finishFx_zero_opacity (B : Mode → Color → Color → Color) (force : 
     rcases List.mem_cons.1 hs with rfl | h
     · simp [ownSrc, maskedAlpha, hop, hko]
     · unfold fxSrcs at h
-      rw [hns] at h
-      simp only [List.map_nil, List.append_nil] at h
-      obtain ⟨e, _, rfl⟩ := List.mem_map.1 h
-      simp [overlaySrc, maskedAlpha, hop]
+      rcases List.mem_append.1 h with h | h
+      · obtain ⟨e, _, rfl⟩ := List.mem_map.1 h
+        simp [overlaySrc, maskedAlpha, hop]
+      · obtain ⟨f, _, rfl⟩ := List.mem_map.1 h
+        simp [strokeFxSrc, hop]
 
 /-- the variant in which the overlays are painted with an alpha that omits the layer opacity
 (`alpha *= shape_mask * opacity_mask`, the constant factors applied to the layer's own source only) -/
@@ -217,7 +219,7 @@ def finishFxOpacityOmitted (B : Mode → Color → Color → Color) (force : Boo
   let shape1 := shape * m.1
   let alpha1 := alpha * (m.1 * m.2)
   let st1 := applySource (B pr.mode) st color (shape1 * pr.fill) (alpha1 * (pr.fill * pr.opacity)) pr.knockout
-  applyStrokeFx B V pr.bbox x y (applyOverlays B V pr.bbox x y shape1 alpha1 st1 fx.overlays) fx.strokeFx
+  applyStrokeFx B V pr.bbox x y pr.opacity (applyOverlays B V pr.bbox x y shape1 alpha1 st1 fx.overlays) fx.strokeFx
 
 /-! ### witnesses -/
 
